@@ -95,12 +95,6 @@ Definition max_pt (w : fw) (d : dtype) (xs : list Z) : I.type :=
   | Some (i, _) => match pt_of w (nth i xs 0) with Some p => p | None => izero end
   | None => izero
   end.
-(* allowance for the float Exp kernel: gorgonia's float32 exp (8 + 4|z|) u, Go's float64 math.Exp 4u *)
-Definition abs_up (z : I.type) : Z :=
-  match I.abs z with Interval.Float.Ibnd _ u => match F.toF u with Basic.Float _ m e => (if (0 <=? e) then Z.pos m * 2 ^ e else Z.pos m / 2 ^ (- e) + 1) | _ => 0 end | _ => 1000 end.
-Definition f_exp (w : fw) (z : I.type) : I.type :=
-  match w with W32 => widen w (8 + 4 * abs_up z) (sexp z) | W64 => widen w 4 (sexp z) end.
-
 (* one slice: inputs as point intervals -> enclosures of what a float kernel computing
    exp(x - m) / sum exp(x - m) (resp. (x - m) - ln sum) may return, for the shift m *)
 Definition soft_slice (w : fw) (logsm : bool) (xs : list I.type) (m : I.type) : list I.type :=
